@@ -101,11 +101,11 @@ def main(argv):
         cases = [rp["case"]] if "case" in rp else rp.get("cases", [])
     else:
         cases = list(prop.corpus()) + list(prop.gen(rng, tier))
-    findings = [f for f in core.load_findings() if f["property"] == pid]
+    findings = [f for f in core.load_findings() if f["property"] == pid or pid in f.get("also", [])]
     open_findings = [f for f in findings if f.get("status") == "open"]
     if not replay:
         for f in open_findings:
-            if "witness" in f:
+            if "witness" in f and f["property"] == pid:
                 cases.insert(0, dict(f["witness"], _finding=f["id"]))
 
     try:
@@ -164,7 +164,7 @@ def main(argv):
     for f in open_findings:
         if known_hits[f["id"]] > 0:
             print("KNOWN-FINDING: property=%s %s [%s] (%d generated cases in its class)" % (pid, f["what"], f["id"], known_hits[f["id"]]))
-        else:
+        elif f["property"] == pid:
             print("NOTE: open finding %s did not reproduce on this tree" % f["id"])
 
     os.makedirs(os.path.join(VERIF, "replays"), exist_ok=True)
